@@ -225,7 +225,13 @@ func init() {
 					return result{res: parseJWT(parser, tok), aux: tok}
 				case 7: // negative: tampered signature / payload, wrong key finder
 					bad := append([]byte(nil), jwsHS...)
-					bad[len(bad)-2] ^= 1
+					// stay inside the base64url alphabet: an ASCII bit flip can leave it ('A'^1 = '@'),
+					// and then goat (correctly) rejects at parse time instead of at verification
+					if bad[len(bad)-2] == 'A' {
+						bad[len(bad)-2] = 'B'
+					} else {
+						bad[len(bad)-2] = 'A'
+					}
 					bad2 := append([]byte(nil), jwtES...)
 					i := bytes.IndexByte(bad2, '.')
 					bad2[i+3] ^= 2
